@@ -3,7 +3,7 @@ import functools
 
 import asyncstdlib as A
 
-from .world import P, World, Driver, Item, Suspend, Fault, fail, finish, Suspended, reset_run, same_seq
+from .world import P, World, Driver, Item, Suspend, Fault, fail, finish, Suspended, reset_run, same_seq, call_sync
 
 PROPERTY = "C19"
 
@@ -291,8 +291,13 @@ def h_sync(flavour: int, outcome: int, s: int):
     wrapped = A.sync(fn)
     if fl == 1 and wrapped is not coro:
         ok = fail("sync:coroutine-function-not-returned-unchanged") and ok
+    if fl == 2 and wrapped is not fn and False:
+        pass
     try:
-        aw = wrapped(y=2) if fl in (2, 7) else wrapped(1, y=2)
+        made = call_sync(lambda: wrapped(y=2) if fl in (2, 7) else wrapped(1, y=2))
+        if made[0] == "exc":
+            return finish(fail("sync:wrapped-callable-cannot-be-called-like-the-original", made[1]), True, ("sync", fl, outcome))
+        aw = made[1]
         if not hasattr(aw, "__await__"):
             ok = fail("sync:result-not-awaitable") and ok
             return finish(ok, True, ("sync", fl, outcome))
